@@ -120,6 +120,15 @@ func checkConfigCompatibility(
 		}
 	}
 
+	{
+		// the inputs keep their log allocator, which hands out records with one reference per output
+		oldNum := len(oldConf.OutputBuffersPairs)
+		newNum := len(newConf.OutputBuffersPairs)
+		if oldNum != newNum {
+			return fmt.Errorf("outputBufferPairs: the number of outputs must not change: old=%d, new=%d", oldNum, newNum)
+		}
+	}
+
 	// check schema fields last because other comparisons are more verbose
 	{
 		for _, field := range oldStats.FixedFields {
